@@ -1,0 +1,35 @@
+//go:build verif
+
+package extensions
+
+import "grol.io/grol/object"
+
+// Verification hooks (build tag verif only; add-only, nothing here is reachable from a normal build).
+
+// VerifSanitize calls the real sanitizeFileName on save()/load()'s argument list: no argument when
+// hasArg is false, otherwise the single string argument name. The IO configuration flags that Init
+// stores in package variables are set to the given values for the duration of the call and restored.
+func VerifSanitize(unrestricted, emptyOnlyMode, hasArg bool, name string) (string, error) {
+	savedU, savedE := unrestrictedIOs, emptyOnly
+	unrestrictedIOs, emptyOnly = unrestricted, emptyOnlyMode
+	defer func() { unrestrictedIOs, emptyOnly = savedU, savedE }()
+	var args []object.Object
+	if hasArg {
+		args = []object.Object{object.String{Value: name}}
+	}
+	return sanitizeFileName(args)
+}
+
+// VerifSanitizeCurrent calls the real sanitizeFileName under the configuration installed by Init.
+func VerifSanitizeCurrent(hasArg bool, name string) (string, error) {
+	var args []object.Object
+	if hasArg {
+		args = []object.Object{object.String{Value: name}}
+	}
+	return sanitizeFileName(args)
+}
+
+// VerifIOConfig reports the IO configuration flags as stored by Init.
+func VerifIOConfig() (initialized, unrestricted, emptyOnlyMode bool) {
+	return initDone, unrestrictedIOs, emptyOnly
+}
